@@ -151,7 +151,20 @@ func genRunCaseP(rt *rapid.T, h *harness.H, mutantPct int) (*caseRun, *ast.Progr
 		}
 		return describeRun(q, "mutant: "+kind+": "+what, g.Feat, v.Accept, seed), nil, g
 	}
-	c := describeRun(p, "g-prog", g.Feat, true, seed)
+	origin := "g-prog"
+	if d.Chance(30, "coincidences") {
+		// the coincidence-maximising renderer of C14: bound names, function, type and label names are
+		// re-spelled onto identifiers that already occur elsewhere, each step kept only if the
+		// reference verdict and the reference outcome are unchanged (lexically harmless by construction)
+		if r := refsem.Run(p, 50000); r.Error == "" && !r.OutOfBudget && r.Stuck == 0 {
+			q, v := render(d, p, true, r.Labels, "reuse", 14)
+			if v.Steps > 0 {
+				p, origin = q, fmt.Sprintf("g-prog, %d names re-spelled onto names used elsewhere", v.Steps)
+				h.S.Count("renamed_for_coincidences")
+			}
+		}
+	}
+	c := describeRun(p, origin, g.Feat, true, seed)
 	for _, f := range c.Feats {
 		h.S.Count("feat:" + f)
 	}
